@@ -8,14 +8,14 @@ const char* const H_PROPERTY = "C14";
 #define MAXTH 4
 #define MAXK 3
 #define MAXOPS 10
-#define NPOOL 40
+#define NPOOL 120
 #define NCELL 2
 typedef struct hnode {
   hazard_node_t hz; /* must be first */
   long id;
 } hnode_t;
 enum { O_READ = 0, O_REPLACE, O_YIELD };
-static int nth, K, ncell, late_mask;
+static int nth, K, ncell, late_mask, warm[4];
 static struct {
   int n;
   struct {
@@ -172,6 +172,16 @@ static void* thr(void* p) {
     for (int k = 0; k < 3; k++) sim_yield_point(); /* register while others already scan */
   hazard_pointer_thread_record_t* h = hazard_pointer_thread_record_create_and_push(&hp_head, K);
   rec[t] = h;
+  /* warm-up (no preemption): retire nodes nobody ever saw, up to just below the scan threshold, so that the
+   * retirements of the recorded operations trigger scans while other records hold protections */
+  sim_preempt_off();
+  for (int k = 0; k < warm[t]; k++) {
+    hnode_t* n = node_new();
+    if (!n) break;
+    g_retire(n);
+    hazard_pointer_free(h, &n->hz);
+  }
+  sim_preempt_on();
   for (int i = 0; i < prog[t].n; i++) {
     const int c = prog[t].op[i].cell, s = prog[t].op[i].slot;
     if (prog[t].op[i].kind == O_READ) {
@@ -220,6 +230,8 @@ void h_run(void) {
       prog[t].op[i].hold = wl_int(0, 4);
     }
     total += prog[t].n;
+    warm[t] = wl_pct(60) ? 2 * nth * K - wl_int(1, 3) : 0;
+    if (warm[t] < 0) warm[t] = 0;
   }
   n_lo = wl_pct(50) ? NPOOL : wl_int(1, NPOOL - 1);
   sim_describe("records=%d(+1) slots=%d cells=%d ops=%d late_mask=%x nodes_far_apart=%d preempt=1/%d", nth, K, ncell, total, late_mask, NPOOL - n_lo, c.preempt_inv);
